@@ -197,6 +197,7 @@ int main(int argc, char** argv)
 {
     if (argc < 4) return 2;
     vt::out().open(argv[1]);
+    vt::install_abort_handler();
     vt::rng g(std::strtoull(argv[2], nullptr, 10));
     bool thorough = std::atoi(argv[3]) != 0;
     for (int n = 1; n <= (thorough ? 4 : 3); ++n)
